@@ -57,7 +57,7 @@ def honest_login_case(rng, kind=None, fixed=None):
         us, ps = cred(rng), cred(rng)
         salt, b, a = special32(rng), special32(rng), special32(rng)
     uc, pc = flipcase(rng, us), flipcase(rng, ps)
-    via = rng.randrange(2)
+    via = rng.randrange(6)   # 0: no storage round trip; 1..5: re-import through each constructor
     chal = rbytes(rng, 16)
     s = pyref.Session(us, ps, salt, b, a)
     if s.B % N == 0 or s.A % N == 0:
